@@ -230,6 +230,38 @@ c.loop(0, inv=_mk_inv(_topo_common), hints=_topo_hints,
        variant=lambda c: c.var('target_marked') - c.var('nb_marked'))
 
 
+def _topo_export(c):
+    """what a consumer loop `for j in self.topological_order(): ...` may use (symexec.for_generator):
+    the yielded set, the yield position, what the generator reads (must stay stable while it is
+    suspended) and what it writes (unknown to the consumer while the iteration is in progress)."""
+    S = c.a.self
+    Jset = J(c.pre, S)
+    jobs_ref = c.pre.f('jobs', S)
+    ypos = c.cur.H('$ypos')
+
+    def stable(a, b, marks=True):
+        j = q()
+        per = [b.f('required', j) == a.f('required', j),
+               b.elems(a.f('required', j)) == a.elems(a.f('required', j))]
+        if marks:
+            per.append(b.f('_s_mark', j) == a.f('_s_mark', j))
+        return And(b.f('jobs', S) == jobs_ref, a.f('jobs', S) == jobs_ref, b.elems(jobs_ref) == a.elems(jobs_ref),
+                   ForAll([j], Implies(Select(Jset, j), And(per)),
+                          patterns=[b.f('required', j)] + ([b.f('_s_mark', j)] if marks else [])))
+
+    def forget(st):
+        old = st.H('_s_mark')
+        st.havoc('_s_mark')
+        o = q()
+        st.assume(ForAll([o], Implies(Not(Select(Jset, o)), Select(st.H('_s_mark'), o) == Select(old, o)),
+                         patterns=[Select(st.H('_s_mark'), o)]))
+
+    return dict(set=Jset, pos=lambda j: Select(ypos, j), stable=stable, forget=forget)
+
+
+c.gen_export = _topo_export
+
+
 def _topo_inner(c):
     S = c.a.self
     j, r = q(2)
